@@ -10,10 +10,11 @@ import (
 	"log"
 	"os"
 	"sort"
+
+	"verif/harness/kit"
 )
 
-// cmds is filled by init() functions in the per-property files.
-var cmds = map[string]func(args []string) error{}
+var cmds = kit.Cmds
 
 func main() {
 	log.SetOutput(ioutil.Discard)
